@@ -107,11 +107,11 @@ Definition c20_msgs : list (string * string) :=
 # ---------------------------------------------------------------------------------------------
 NAMES = ["A", "B", "C", "D", "F", "Z", "mod:gov", "mod:lockup", "mod:tokenfactory", "mod:superfluid", "mod:distribution",
          "mod:bonded_tokens_pool", "gammpool", "clpool", "clpool:fees", "clpool:incentives", "sfclpool",
-         "intermediary:gamm/pool/1:0", "intermediary:gamm/pool/1:1", "intermediary:cl/pool/4:0", "intermediary:cl/pool/4:1"]
-A, B, C, D, F, Z, GOV, LOCKUP, TF, SF, DISTR, BONDED, GAMMPOOL, CLPOOL, CLFEES, CLINC, SFCLPOOL, IA0, IA1, IC0, IC1 = range(21)
+         "intermediary:gamm/pool/1:0", "intermediary:gamm/pool/1:1", "intermediary:cl/pool/4:0", "intermediary:cl/pool/4:1", "contract", "mod:protorev"]
+A, B, C, D, F, Z, GOV, LOCKUP, TF, SF, DISTR, BONDED, GAMMPOOL, CLPOOL, CLFEES, CLINC, SFCLPOOL, IA0, IA1, IC0, IC1, CONTRACT, PROTOREV = range(23)
 USERS = [A, B, C, D, F, Z]
 OWNERS = [A, B, C, F]          # accounts that own things in the histories (D: unrelated, Z: empty account)
-MODULES = [GOV, LOCKUP, TF, SF, DISTR, BONDED]
+MODULES = [GOV, LOCKUP, TF, SF, DISTR, BONDED, PROTOREV]   # PROTOREV: the bank does not block it from receiving
 UNBONDING_S = 1814400          # staking unbonding time of the test app (asserted)
 POOL_SFB, POOL_B, POOL_CL, POOL_SFCL = 1, 2, 3, 4
 SHARE1, SHARE2, CLSHARE = "gamm/pool/1", "gamm/pool/2", "cl/pool/4"
@@ -133,6 +133,11 @@ LOCK_ONE = {"lk_begin_unlock", "lk_extend", "lk_set_receiver", "lk_force_unlock"
 # history generator: a random sequence of accepted operations (the generator keeps a rough mirror of the objects
 # only to pick sensible arguments; the matrix is later built from the chain's own snapshots)
 # ---------------------------------------------------------------------------------------------
+def na(x):
+    """the before-send hook contract of the test data (no100.wasm) refuses sends of exactly 100: stay clear of it"""
+    return x + 1 if x == 100 else x
+
+
 class Mirror:
     def __init__(self):
         self.pos = {1: {"owner": D, "pool": POOL_SFCL, "lock": 0}}
@@ -147,6 +152,8 @@ class Mirror:
 def gen_history(r, tier):
     m = Mirror()
     ops = []
+    setup = {"fee": r.choice(["0", "0", "1000", "250000"]), "allowed": r.choice([[F], [F], [F, B], [], [F, GOV]]),
+             "unpool": r.choice([[], [], [2], [1, 2]]), "wasm": r.chance(1, 3)}
     n = r.range(14, 30)
     subs = ["foo", "bar", "x/y", "a"]
 
@@ -156,9 +163,10 @@ def gen_history(r, tier):
 
     # a base so that every case has objects of all three kinds
     script = ["pos", "pos", "swap", "lock_sf", "denom", "mint", "lock_plain"]
-    kinds = ["pos", "swap", "transfer", "withdraw", "addpos", "fullpos", "lock_sf", "lock_plain", "lock_b", "delegate",
-             "undelegate", "unbond", "und_unb", "begin_unlock", "extend", "receiver", "lock_delegate", "time", "denom", "mint",
-             "chadmin", "renounce", "metadata", "burn", "ftransfer", "send", "force_unlock", "incentive", "collect", "convert"]
+    kinds = ["pos", "swap", "transfer", "withdraw", "addpos", "fullpos", "lock_sf", "lock_sf", "lock_plain", "lock_b", "delegate", "delegate",
+             "undelegate", "undelegate", "unbond", "unbond", "und_unb", "begin_unlock", "extend", "receiver", "lock_delegate", "time", "denom", "mint",
+             "chadmin", "renounce", "metadata", "burn", "ftransfer", "send", "force_unlock", "incentive", "collect", "convert", "hook",
+             "lock_factory"]
     while len(script) < n:
         script.append(r.choice(kinds))
     for k in script:
@@ -204,12 +212,31 @@ def gen_history(r, tier):
             m.pos[m.npos] = {"owner": o, "pool": POOL_SFCL, "lock": m.llock}
             m.locks[m.llock] = {"owner": o, "den": CLSHARE, "amt": 10**20, "dur": UNBONDING_S, "unl": False, "synth": 1}
             m.npos += 1
+        elif k == "lock_factory":
+            h = sorted((a, d) for (a, d), v in m.fbal.items() if v >= 10 and a != Z)
+            if h:
+                a, d = r.choice(h)
+                amt = r.range(1, m.fbal[(a, d)] // 2)
+                dur = r.choice([3600, UNBONDING_S])
+                ex = [i for i, l in m.locks.items() if l["owner"] == a and l["den"] == "factory/@%d/%s" % d and l["dur"] == dur and not l["unl"]]
+                add({"k": "h_lock", "s": a, "den": "factory/@%d/%s" % d, "amt": str(amt), "dur": dur})
+                m.fbal[(a, d)] -= amt
+                if ex:
+                    m.locks[ex[0]]["amt"] += amt
+                else:
+                    m.llock += 1
+                    m.locks[m.llock] = {"owner": a, "den": "factory/@%d/%s" % d, "amt": amt, "dur": dur, "unl": False, "synth": 0}
+        elif k == "hook":
+            c = [d for d, adm in m.denoms.items() if adm is not None]
+            if c and setup["wasm"]:
+                d = r.choice(c)
+                add({"k": "tf_set_hook", "s": m.denoms[d], "den": "factory/@%d/%s" % d, "to": r.choice([CONTRACT, CONTRACT, -1])})
         elif k in ("lock_sf", "lock_plain", "lock_b"):
             o = r.choice(OWNERS)
             if k == "lock_plain":
                 den, amt = "plain", r.range(1000, 10**6)
                 fd = [d for d, adm in m.denoms.items() if m.fbal.get((o, d), 0) >= 10]
-                if fd and r.chance(1, 3):
+                if fd and r.chance(1, 2):
                     d = r.choice(fd)
                     den, amt = "factory/@%d/%s" % d, r.range(1, m.fbal[(o, d)] // 2 + 1)
                     m.fbal[(o, d)] -= amt
@@ -317,7 +344,7 @@ def gen_history(r, tier):
             den = "factory/@%d/%s" % d
             if k == "mint":
                 to = r.choice(USERS)
-                amt = r.range(10, 10**6)
+                amt = na(r.range(10, 10**6))
                 add({"k": "tf_mint", "s": adm, "den": den, "amt": str(amt), "to": to})
                 m.fbal[(to, d)] = m.fbal.get((to, d), 0) + amt
             elif k == "chadmin":
@@ -334,7 +361,9 @@ def gen_history(r, tier):
                 h = [a for (a, dd), v in m.fbal.items() if dd == d and v >= 2]
                 if h:
                     a = r.choice(sorted(h))
-                    amt = r.range(1, m.fbal[(a, d)] // 2)
+                    amt = na(r.range(1, m.fbal[(a, d)] // 2))
+                    if amt > m.fbal[(a, d)]:
+                        continue
                     if k == "burn":
                         add({"k": "tf_burn", "s": adm, "den": den, "amt": str(amt), "from": a})
                     else:
@@ -347,7 +376,9 @@ def gen_history(r, tier):
             if h:
                 a, d = r.choice(sorted(h))
                 to = r.choice(USERS)
-                amt = r.range(1, m.fbal[(a, d)] // 2)
+                amt = na(r.range(1, m.fbal[(a, d)] // 2))
+                if amt > m.fbal[(a, d)]:
+                    continue
                 add({"k": "h_send", "s": a, "to": to, "den": "factory/@%d/%s" % d, "amt": str(amt)})
                 m.fbal[(a, d)] -= amt
                 m.fbal[(to, d)] = m.fbal.get((to, d), 0) + amt
@@ -368,8 +399,6 @@ def gen_history(r, tier):
                 i = r.choice(c)
                 add({"k": "sf_unbond_convert_stake", "s": m.locks[i]["owner"], "id": i, "val": r.below(2), "den": m.locks[i]["den"], "amt": "0"})
                 del m.locks[i]
-    setup = {"fee": r.choice(["0", "0", "1000", "250000"]), "allowed": r.choice([[F], [F], [F, B], [], [F, GOV]]),
-             "unpool": []}
     return {"setup": setup, "ops": ops}
 
 
@@ -519,7 +548,7 @@ def build_matrix(r, snap, static, hist, tier):
     emit({"k": "sf_lock_delegate", "den": SHARE1, "amt": str(6 * 10**18), "val": 0}, [A, B])
     emit({"k": "sf_lock_delegate", "den": SHARE1, "amt": str(10**16), "val": NOVAL}, [A, B])
     for pool in (POOL_SFB, POOL_B, POOL_CL, 77):
-        emit({"k": "sf_unpool", "id": pool}, USERS + [GOV, GAMMPOOL])
+        emit({"k": "sf_unpool", "id": pool}, USERS + [GOV, GAMMPOOL, LOCKUP])
     for den in (SHARE1, SHARE2, "plain", "gamm/pool/9"):
         emit({"k": "sf_unbond_convert_stake", "id": 0, "val": r.below(2), "den": den, "amt": str(r.range(10**15, 10**16))}, USERS + [GOV, GAMMPOOL])
     emit({"k": "sf_unbond_convert_stake", "id": 0, "val": NOVAL, "den": SHARE2, "amt": str(10**15)}, [A, B])
@@ -538,20 +567,21 @@ def build_matrix(r, snap, static, hist, tier):
         holders = sorted(a for (a, dd), v in snap.bal.items() if dd == den and v > 0 and a in USERS)
         holder = r.choice(holders) if holders else A
         hb = snap.balance(holder, den)
-        amt = str(r.range(1, 10**6))
+        amt = str(na(r.range(1, 10**6)))
         emit({"k": "tf_mint", "den": den, "amt": amt, "to": -1}, snd)
         emit({"k": "tf_mint", "den": den, "amt": amt, "to": r.choice(USERS)}, snd)
-        for mod in (MODULES if full else [r.choice(MODULES), TF]):
+        holding = [mod for mod in MODULES if snap.balance(mod, den) > 0]     # e.g. the lockup module when the coins are locked
+        for mod in (MODULES if full else sorted(set(holding + [r.choice(MODULES), TF, PROTOREV]))):
             emit({"k": "tf_mint", "den": den, "amt": amt, "to": mod}, two)
             emit({"k": "tf_burn", "den": den, "amt": "1", "from": mod}, two)
             emit({"k": "tf_force_transfer", "den": den, "amt": "1", "from": mod, "to": r.choice(USERS)}, two)
             emit({"k": "tf_force_transfer", "den": den, "amt": "1", "from": holder, "to": mod}, two)
         emit({"k": "tf_mint", "den": den, "amt": amt, "to": r.choice([CLPOOL, GAMMPOOL, IA0])}, two)
         emit({"k": "tf_mint", "den": den, "amt": "0", "to": -1}, two)
-        emit({"k": "tf_burn", "den": den, "amt": str(max(1, hb // 2)), "from": holder}, snd)
+        emit({"k": "tf_burn", "den": den, "amt": str(na(max(1, hb // 2))), "from": holder}, snd)
         emit({"k": "tf_burn", "den": den, "amt": "1", "from": -1}, snd if full else two)
         emit({"k": "tf_burn", "den": den, "amt": str(hb + 1), "from": holder}, two)
-        emit({"k": "tf_force_transfer", "den": den, "amt": str(max(1, hb // 2)), "from": holder, "to": r.choice(USERS)}, snd)
+        emit({"k": "tf_force_transfer", "den": den, "amt": str(na(max(1, hb // 2))), "from": holder, "to": r.choice(USERS)}, snd)
         emit({"k": "tf_force_transfer", "den": den, "amt": str(hb + 1), "from": holder, "to": r.choice(USERS)}, two)
         emit({"k": "tf_force_transfer", "den": den, "amt": "0", "from": holder, "to": r.choice(USERS)}, two)
         emit({"k": "tf_change_admin", "den": den, "to": r.choice(users)}, snd)
@@ -559,6 +589,7 @@ def build_matrix(r, snap, static, hist, tier):
         emit({"k": "tf_set_metadata", "den": den, "sub": r.choice(["alpha", "beta"])}, snd)
         emit({"k": "tf_set_metadata", "den": den, "sub": "gamma", "bad": True}, two)
         emit({"k": "tf_set_hook", "den": den, "to": -1}, snd)
+        emit({"k": "tf_set_hook", "den": den, "to": CONTRACT}, snd)     # a contract only when the case uploaded it
         emit({"k": "tf_set_hook", "den": den, "to": r.choice(USERS)}, two)
     for den in ("factory/@0/nosuch", "stake", SHARE1, "uosmo"):
         emit({"k": "tf_mint", "den": den, "amt": "5", "to": -1}, [A, D])
@@ -739,8 +770,23 @@ def expect_flat(pre, post, st, watch, it):
     return out
 
 
+def unpool_order(pre, sender, share):
+    """the store iterator of GetAccountLockedLongerDurationDenom: not-unlocking locks by (duration, id), then the unlocking ones"""
+    own = [l for l in pre.locks.values() if l["owner"] == sender and l["den"] == share]
+    return [l["id"] for l in sorted(own, key=lambda l: (l["unl"], l["dur"], l["id"]))]
+
+
 def env_for(o, pre, post, it):
     liq = shares = 0
+    if o["k"] == "sf_unpool" and post is not None:
+        order = unpool_order(pre, o["s"], "gamm/pool/%d" % o["id"])
+        new = [post.locks[i] for i in sorted(post.locks) if i > pre.llock]
+        per = len(new) // len(order) if order else 0
+        rows = []
+        for k, lid in enumerate(order):
+            grp = new[k * per:(k + 1) * per]
+            rows.append("(%d, %d, %s)" % (lid, grp[0]["dur"] if grp else 0, coq_list("(%s, %d)" % (it.dk_coq(g["den"]), g["amt"]) for g in grp)))
+        return "(mkEnv 0 0 %s)" % coq_list(rows)
     if post is not None:
         np = post.pos.get(pre.npos)
         if np:
@@ -772,6 +818,10 @@ def oracle(o, st, pre, post, static):
         v.append({"what": "%s: %s [sender %s, op %s]" % (kind, what, NAMES[s], json.dumps(o, sort_keys=True)),
                   "rec": {"kind": kind, "msg": k}})
 
+    # the id discipline the frame theorems assume of reachable states
+    for sn in (pre, post):
+        if sn is not None and (any(i > sn.llock for i in sn.locks) or any(i >= sn.npos for i in sn.pos)):
+            bad("id_discipline", "an object id is not below its counter: locks %s <= %d, positions %s < %d" % (sorted(sn.locks), sn.llock, sorted(sn.pos), sn.npos))
     if st["r"] != 0:
         # rejected => nothing changed
         if st["d0"] != st["d1"]:
